@@ -149,6 +149,16 @@ Grid::map_space_dimensions(const Partial_Function& pfunc) {
     std::vector<Variable> cycle;
     cycle.reserve(space_dim);
 
+    // Check that `pfunc' is defined on every dimension before modifying
+    // `*this': a rejected call must leave the object unchanged.
+    for (dimension_type i = space_dim; i-- > 0; ) {
+      dimension_type k = 0;
+      if (!pfunc.maps(i, k)) {
+        throw_invalid_argument("map_space_dimensions(pfunc)",
+                               " pfunc is inconsistent");
+      }
+    }
+
     // Used to mark elements as soon as they are inserted in a cycle.
     std::deque<bool> visited(space_dim);
 
@@ -160,8 +170,8 @@ Grid::map_space_dimensions(const Partial_Function& pfunc) {
           // The following initialization is only to make the compiler happy.
           dimension_type k = 0;
           if (!pfunc.maps(j, k)) {
-            throw_invalid_argument("map_space_dimensions(pfunc)",
-                                   " pfunc is inconsistent");
+            // Already checked above.
+            PPL_UNREACHABLE;
           }
           if (k == j) {
             break;
